@@ -7,6 +7,7 @@
   compares the real encoders' bytes with these (ops `spec.*`).
 -/
 import AQ.Model.Codec
+import AQ.Model.FrameCodec
 
 namespace AQ.CodecSpec
 open AQ AQ.Codec
@@ -126,5 +127,62 @@ def encParam (id : Nat) (v : PVal) : Bytes :=
 def encParams : List (Nat × PVal) → Bytes
   | [] => []
   | (id, v) :: rest => encParam id v ++ encParams rest
+
+/-! ## Frames (RFC 9000 §19, RFC 9221 §4) -/
+
+open AQ.Frame in
+/-- the Length field of CRYPTO / STREAM frames: shortest varint, or `2^k` bytes
+    when `lw = some k` (§16 allows any width; aioquic writes these two on 2 bytes) -/
+def encLen (lw : Option Nat) (n : Nat) : Bytes :=
+  match lw with
+  | none => encVarint n
+  | some k => encVarintW k n
+
+def natRg (r : IRg) : Rg := ⟨r.start.toNat, r.stop.toNat⟩
+
+open AQ.Frame in
+/-- one frame: Type (i) then the fields of its §19.x layout.
+    STREAM: type 0b00001XXX with OFF = 0x04, LEN = 0x02, FIN = 0x01 (§19.8). -/
+def encFrameW (lw : Option Nat) : Frame → Bytes
+  | .padding more => List.replicate (more + 1) 0
+  | .ping => encVarint 0x01
+  | .ack rs delay none => encVarint 0x02 ++ encAck (rs.map natRg) delay
+  | .ack rs delay (some (a, b, c)) =>
+    encVarint 0x03 ++ encAck (rs.map natRg) delay ++ encVarint a ++ encVarint b ++ encVarint c
+  | .resetStream sid err final => encVarint 0x04 ++ encVarint sid ++ encVarint err ++ encVarint final
+  | .stopSending sid err => encVarint 0x05 ++ encVarint sid ++ encVarint err
+  | .crypto offset data => encVarint 0x06 ++ encVarint offset ++ encLen lw data.length ++ data
+  | .newToken token => encVarint 0x07 ++ encVarint token.length ++ token
+  | .stream sid offset data fin hasOff hasLen =>
+    encVarint (0x08 + (if hasOff then 4 else 0) + (if hasLen then 2 else 0) + (if fin then 1 else 0))
+      ++ encVarint sid ++ (if hasOff then encVarint offset else [])
+      ++ (if hasLen then encLen lw data.length else []) ++ data
+  | .maxData v => encVarint 0x10 ++ encVarint v
+  | .maxStreamData sid v => encVarint 0x11 ++ encVarint sid ++ encVarint v
+  | .maxStreams uni v => encVarint (if uni then 0x13 else 0x12) ++ encVarint v
+  | .dataBlocked v => encVarint 0x14 ++ encVarint v
+  | .streamDataBlocked sid v => encVarint 0x15 ++ encVarint sid ++ encVarint v
+  | .streamsBlocked uni v => encVarint (if uni then 0x17 else 0x16) ++ encVarint v
+  | .newConnectionId seq rpt cid token =>
+    encVarint 0x18 ++ encVarint seq ++ encVarint rpt ++ [UInt8.ofNat cid.length] ++ cid ++ token
+  | .retireConnectionId seq => encVarint 0x19 ++ encVarint seq
+  | .pathChallenge d => encVarint 0x1a ++ d
+  | .pathResponse d => encVarint 0x1b ++ d
+  | .transportClose err ft reason =>
+    encVarint 0x1c ++ encVarint err ++ encVarint ft ++ encVarint reason.length ++ reason
+  | .applicationClose err reason => encVarint 0x1d ++ encVarint err ++ encVarint reason.length ++ reason
+  | .handshakeDone => encVarint 0x1e
+  | .datagram d hasLen => encVarint (if hasLen then 0x31 else 0x30) ++ (if hasLen then encVarint d.length else []) ++ d
+
+/-- shortest encoding -/
+def encFrame (f : AQ.Frame.Frame) : Bytes := encFrameW none f
+
+def encFrames (lw : Option Nat) : List AQ.Frame.Frame → Bytes
+  | [] => []
+  | f :: fs => encFrameW lw f ++ encFrames lw fs
+
+/-- quic/retry.py token plaintext: three `opaque<0..255>` vectors (RFC 8446 §3.4 notation) -/
+def encRetryTokenPlain (addr odcid rscid : Bytes) : Bytes :=
+  [UInt8.ofNat addr.length] ++ addr ++ [UInt8.ofNat odcid.length] ++ odcid ++ [UInt8.ofNat rscid.length] ++ rscid
 
 end AQ.CodecSpec
